@@ -72,6 +72,8 @@ def node(spec, shared=None):
     if k == "AtMost":
         return pg.AtMost(spec["v"], ch, variable=_var(spec))
     if k in ("All", "Any", "Xor", "ExactlyOne", "XNor"):
+        if spec.get("fl"):
+            return getattr(pg, k).from_list(list(ch), variable=_var(spec))      # the list-taking constructor
         return getattr(pg, k)(*ch, variable=_var(spec))
     if k == "Imply":
         return pg.Imply(ch[0], ch[1], variable=_var(spec))
